@@ -1658,7 +1658,8 @@ def inverse_consistency_loss(
             raise ValueError(
                 f"inverse_consistency_loss() 'mask' batch size must be 1 or {error.shape[0]}"
             )
-        error[move_dim(mask == 0, 1, -1).expand_as(error)] = 0
+        mask = move_dim(mask != 0, 1, -1).expand(error.shape[:-1] + (1,))
+        error[~mask.expand_as(error)] = 0
     # Discard error at grid boundary
     if margin > 0:
         if isinstance(margin, float):
@@ -1671,6 +1672,8 @@ def inverse_consistency_loss(
             m = [max(0, int(margin))] * grid.ndim
         subgrid = tuple(reversed([slice(i, n - i) for i, n in zip(m, grid.size())]))
         error = error[(slice(0, error.shape[0]),) + subgrid + (slice(0, grid.ndim),)]
+        if mask is not None:
+            mask = mask[(slice(0, mask.shape[0]),) + subgrid]
     # Scale differences by respective error units
     if units in ("voxel", "world"):
         error = denormalize_flow(
